@@ -298,7 +298,24 @@ class Encoder:
         return out
 
     def loop_paths(self):
-        return [p for p in self.paths if p.end == "loop" and self.search is not None and any(e is self.search or (e["k"] == "call" and e.get("callee") == self.search["callee"]) for e in p.events)]
+        def feasible(p):
+            """`buf.last_mut()` / `last()` is Some right after a push to buf on the same path: the None arm of an
+            `if let Some(last) = buf.last_mut()` that follows a push cannot be taken"""
+            pushed = False
+            for e in p.events:
+                if e["k"] == "call" and e["callee"] and e["callee"].startswith("std::vec::Vec") and e["callee"].endswith("::push"):
+                    pushed = True
+            if not pushed:
+                return True
+            for (bb, term, vals, neg, dty) in p.conds:
+                if term[0] == "discr" and strip_refs(term[1])[0] == "call" and strip_refs(term[1])[1].rsplit("::", 1)[-1] in ("last_mut", "last", "first", "first_mut"):
+                    sel = set(vals)
+                    if neg:
+                        sel = {0, 1} - sel
+                    if sel == {0}:
+                        return False
+            return True
+        return [p for p in self.paths if p.end == "loop" and self.search is not None and any(e is self.search or (e["k"] == "call" and e.get("callee") == self.search["callee"]) for e in p.events) and feasible(p)]
 
     def branch_of(self, p):
         """('literal'|'reference', [length-class conds]) of a loop path, from conditions on the match length."""
@@ -369,6 +386,14 @@ class Encoder:
                             prev[0][1] = val
                         else:
                             slots.append([key, val])
+                elif pl[0] == "deref" and any(x[0] == "call" and x[1] and x[1].endswith("::last_mut") for x in walk(pl)):
+                    # `*v.last_mut().unwrap() |= x` / `if let Some(last) = v.last_mut() { *last |= x }`
+                    val = e["val"]
+                    x = val[3] if (val[0] == "bin" and val[1] == "BitOr") else val
+                    if slots:
+                        slots[-1][1] = ("bin", "BitOr", slots[-1][1], x)
+                    else:
+                        slots.append([("unknown", "last_mut"), val])
                 elif pl[0] == "deref" and pl[1][0] == "call" and pl[1][1].endswith("index_mut"):
                     idx = pl[1][2][1]
                     val = e["val"]
